@@ -36,6 +36,12 @@ CHECKS["C14"] = dict(
     note="Trusted: TLC, Fraction(x).limit_denominator(180) as the float->rational projection, symbol tags. Platforms without TempUnits/heater items cannot build a heater (C11 finding) and contribute no records.",
     design="§4 C14")
 
+CHECKS["C18"] = dict(
+    technique="PackTables.tla (publish-only layout history, item well-formedness in BitField terms) model-checked with an editing negative control; complete extraction of all shipped modules judged by TLC (C18_Judge) incl. the immutability step from the layout pinned at the audited commit",
+    text="Every item of all 164 modules is extracted through real table/accessor objects and judged by TLC for well-formedness (bytes inside the block, bit field inside its bytes, labels representable), every advertised key list must name items, module names must agree with declared platform/version and with the FILES naming decoded by the real config-file handler for all 895 combinations, and each of the 20 669 pinned keys must be unchanged (ImmutableStep).",
+    note="Trusted: TLC, the extractor (attribute reads), pins/pack_layout.json.gz generated from commit 236b7b1. Known findings: three ill-formed entries (D12), recorded by item key.",
+    design="§4 C18")
+
 NOT_YET = {}
 
 
